@@ -4,7 +4,7 @@
 known_findings/<PID>-spec.json (site + id prefix).  Nothing is removed.  Unmatched pairs are
 printed: they are new violations and must be looked at.
 usage: add_known.py <PID> <dump.json>"""
-import json, os, sys
+import json, os, re, sys
 pid, dump = sys.argv[1:3]
 here = os.path.dirname(os.path.dirname(os.path.abspath(__file__)))
 pairs = [tuple(p) for p in json.load(open(dump))]
@@ -14,7 +14,7 @@ rest = []
 added = {}
 for s, i in pairs:
     for sp in spec:
-        if sp['site'] == s and any(i.startswith(p) or p in i for p in sp['prefix']):
+        if sp['site'] == s and (any(i.startswith(p) or p in i for p in sp['prefix']) or any(re.search(r, i) for r in sp.get('regex', []))):
             rel = 'known_findings/%s-%s.json' % (pid, sp['slug'])
             if not os.path.exists(os.path.join(here, rel)):
                 json.dump([], open(os.path.join(here, rel), 'w'))
